@@ -196,13 +196,15 @@ StepSeq(ax, t, x) == IF ax \in ReverseAxes THEN DescSeq(StepSet(ax, t, x))
                                            ELSE AscSeq(StepSet(ax, t, x))
 
 (* Predicates, evaluated with the focus (node, position, size) *)
-AllPreds == {"0", "1", "2", "3", "last()", "last()-1", "position()<2", "position()<3", "position()>1", "b", "@a", "not(b)", "text()"}
+AllPreds == {"0", "1", "2", "3", "1.5", "last() div 2", "last()", "last()-1", "position()<2", "position()<3", "position()>1", "b", "@a", "not(b)", "text()"}
 PredHolds(pr, n, pos, size) ==
   CASE pr = "1" -> pos = 1
     [] pr = "0" -> FALSE          \* positions start at 1: [0] selects nothing
     [] pr = "2" -> pos = 2
     [] pr = "3" -> pos = 3
     [] pr = "last()-1" -> pos = size - 1
+    [] pr = "1.5" -> FALSE                     \* a numeric predicate is position() = value: never true for a non-integer
+    [] pr = "last() div 2" -> pos * 2 = size   \* ... and true only when size is even
     [] pr = "position()>1" -> pos > 1
     [] pr = "last()" -> pos = size
     [] pr = "position()<2" -> pos < 2
